@@ -74,6 +74,9 @@ type Result struct {
 	Transfers []Transfer // queued by the contract (applied only when OK)
 	TxnHash   string
 	Round     int64
+	Sender    string // txn.ClientID
+	Func      string // called function
+	Value     uint64 // txn.Value
 }
 
 type World struct {
@@ -174,6 +177,7 @@ func (w *World) ExecAs(fromID, fromPK, fn string, input []byte, value uint64, no
 	txn.TransactionType = transaction.TxnTypeSmartContract
 	res.TxnHash = txn.Hash
 	res.Round = w.Round
+	res.Sender, res.Func, res.Value = fromID, fn, value
 
 	tmpt := w.child()
 	ctx := w.ctxOn(tmpt, w.Round, txn)
